@@ -4,6 +4,7 @@ import (
 	"bufio"
 	"bytes"
 	"encoding/base64"
+	"fmt"
 	"os"
 	"time"
 
@@ -35,11 +36,20 @@ func init() {
 		type result struct {
 			Runes []int    `json:"runes"`
 			Toks  []lexTok `json:"toks"`
-			End   string   `json:"end"` // eos | error | max
+			End   string   `json:"end"` // eos | error | max | panic
+			Eof   bool     `json:"eof"` // reader delivered every rune
+			Panic string   `json:"panic,omitempty"`
 		}
 		done := make(chan result, 1)
 		go func() {
 			var res result
+			defer func() {
+				if e := recover(); e != nil {
+					res.End = "panic"
+					res.Panic = fmt.Sprint(e)
+					done <- res
+				}
+			}()
 			for _, c := range []rune(string(raw)) {
 				res.Runes = append(res.Runes, int(c))
 			}
@@ -66,6 +76,7 @@ func init() {
 				res.Toks = append(res.Toks, lt)
 			}
 			res.Toks = append(res.Toks, lexTok{Tag: -2, Row: p.Row, ERow: p.ErrorRow})
+			res.Eof = p.Lexer.VerifAtEOF()
 			done <- res
 		}()
 		select {
